@@ -166,6 +166,93 @@ theorem mt_file_order_eq (f : FileSpec) (h : WfFile f) :
   rw [ribEntriesMtSeq_of_parts (tables_eq f h)]
   exact tables_single_eq f h
 
+/-! ## the attribute blocks, octet for octet, whatever their length
+
+`RibEntry` (src/mrt.rs:339) exposes the BGP attributes of an entry as a `Parser`
+over the block (`pub attributes`), and the three iterators copy that block into a
+`Vec<u8>`: NO accessor of `src/mrt.rs` parses the attributes (no typed iterator, no
+RFC 6396 4.3.4 reading of four-octet AS numbers or of the abbreviated
+MP_REACH_NLRI).  "The entries the file contains" is therefore, for the attribute
+part, a statement about octets – made explicit here for blocks of EVERY length the
+two-octet Attribute Length field can announce, far beyond the 4096 octets a BGP
+message is limited to. -/
+
+/-- the attribute block of a yielded entry -/
+def RibItem.attrs : RibItem → Bytes
+  | (_, _, _, _, a) => a
+
+/-- **rib_entry_attributes_bytes.** For every well-formed file the attribute
+blocks the sequential iterator, the per-table iterators and the parallel
+iterator (in file order) yield are, entry by entry and octet for octet, the
+blocks of the file – of any length from 0 to 65535. -/
+theorem rib_entry_attributes_bytes (f : FileSpec) (h : WfFile f) :
+    (∃ items, ribEntries (encFile f) = .ok items ∧
+      items.map RibItem.attrs = f.tables.flatMap fun t => t.entries.map (·.attrs)) ∧
+    (∃ items, ribEntriesMtSeq (encFile f) = .ok items ∧
+      items.map (·.2.2) = f.tables.flatMap fun t => t.entries.map (·.attrs)) := by
+  refine ⟨⟨_, rib_entries_eq f h, ?_⟩, ⟨_, mt_file_order_eq f h, ?_⟩⟩
+  · simp [entriesOf, List.map_flatMap, ribItem, RibItem.attrs, Function.comp_def]
+  · simp [entriesOf, List.map_flatMap, ribItem, triple, Function.comp_def]
+
+/-- a file with one peer and one IPv4 /8 table holding one entry with the attribute block `a` -/
+def oneEntryFile (a : Bytes) : FileSpec :=
+  { ts := 1, collector := 2, view := [],
+    peers := [⟨0x0a000001, [10, 0, 0, 1], 64512, false⟩],
+    tables := [⟨1, 0, false, 8, [10], [⟨0, 5, a⟩]⟩] }
+
+/-- **attr_block_any_length.** The envelope is exactly the Attribute Length
+field's range: for EVERY block of at most 65535 octets (4097, 40000, 65535, ...)
+the one-entry file is well formed, and `rib_entries()` yields that block,
+unchanged.  (A longer block cannot be announced by a two-octet field:
+`WfEntry` demands `attrs.length < 65536` and nothing else of the block.) -/
+theorem attr_block_any_length (a : Bytes) (ha : a.length ≤ 65535) :
+    WfFile (oneEntryFile a) ∧
+      ribEntries (encFile (oneEntryFile a)) =
+        .ok [(false, 0, ⟨0x0a000001, [10, 0, 0, 1], 64512⟩, ⟨false, 8, [10]⟩, a)] := by
+  have hw : WfFile (oneEntryFile a) := by
+    refine ⟨?_, ?_, ?_, ?_, ?_, ?_, ?_⟩
+    · show (oneEntryFile []).ts < _; decide
+    · show (oneEntryFile []).collector < _; decide
+    · show (oneEntryFile []).view.length < _; decide
+    · show (oneEntryFile []).peers.length < _; decide
+    · show ∀ p ∈ (oneEntryFile []).peers, WfPeer p; decide
+    · show (encPeerTableBody (oneEntryFile [])).length < _; decide
+    · intro t ht
+      simp only [oneEntryFile, List.mem_cons, List.not_mem_nil, or_false] at ht
+      subst ht
+      refine ⟨?_, ?_, ?_, ?_, ?_, ?_, ?_, ?_⟩
+      · simp
+      · simp
+      · simp
+      · simp
+      · dsimp only; decide
+      · simp
+      · intro e he
+        simp only [List.mem_cons, List.not_mem_nil, or_false] at he
+        subst he
+        refine ⟨?_, ?_, ?_, ?_⟩
+        · simp [oneEntryFile]
+        · simp
+        · simp
+        · dsimp only; omega
+      · simp only [encTableBody, encEntries, encEntry, List.flatMap_cons, List.flatMap_nil, List.length_append,
+          List.length_cons, be32_length, be16_length, List.length_nil]
+        omega
+  refine ⟨hw, ?_⟩
+  rw [rib_entries_eq _ hw]
+  rfl
+
+/-- the hypotheses are met at the boundary and far above a BGP message's size -/
+example : (List.replicate 65535 (0x5a : UInt8)).length ≤ 65535 := by rw [List.length_replicate]; exact Nat.le_refl _
+example : (List.replicate 4097 (0 : UInt8)).length ≤ 65535 := by rw [List.length_replicate]; omega
+
+/-- the Attribute Length field is the whole story: an entry is well formed for a
+file with `np` peers iff its indices and time fit their fields and its block
+fits the two-octet length – no other demand is made of the attribute octets -/
+theorem wfEntry_iff (np : Nat) (e : EntrySpec) :
+    WfEntry np e ↔ (e.peerIdx < np ∧ e.peerIdx < 65536 ∧ e.origTime < 4294967296 ∧ e.attrs.length ≤ 65535) := by
+  unfold WfEntry; omega
+
 /-! ## BGP4MP -/
 
 /-- the records wholly inside the first `k` octets of `encRecs rs` -/
